@@ -108,6 +108,11 @@ FORMULAS = [
     'forall <start> s="{<assgn> a}[ ; <stmt>]" in start: (str.prefixof "a" a)',
     'forall <stmt> s="<var> := {<var> r} ; {<stmt> t}" in start: (str.prefixof r t)',
     'exists <stmt> s="{<var> l} := <rhs> ; {<var> m} := <rhs>" in start: (= l m)',
+    # a count atom with a literal number below a numeric quantifier, occurring negatively (second strategy)
+    'exists int n: ((= (str.to.int n) 1) and not count(start, "<assgn>", "7"))',
+    'forall int n: (count(start, "<var>", "9") implies (= (str.to.int n) 0))',
+    'exists int n: (count(start, "<assgn>", n) and (not count(start, "<digit>", "5") or (= (str.to.int n) 0)))',
+    'not (exists int n: (count(start, "<var>", n) and count(start, "<assgn>", "4")))',
     # count with a recursive needle
     'count(start, "<stmt>", "2")',
     'not count(start, "<stmt>", "2")',
